@@ -34,7 +34,7 @@ ASSUMPTIONS = ["after a session passed step-level settings for an element to a s
                "the fresh-model oracle shares the DSL core with the system (its correctness is C01, not claimed)"]
 FAULT_KINDS = []
 PROBES = ["observed_together_with_sibling", "sibling_on_another_grid", "hybrid_manager", "managers_share_base_object", "points_setting", "runspec_setting", "step_level_setting", "rest_run_setting", "session_left_open",
-          "scenario_added_later", "session_with_foreign_operations", "scenario_registered_again", "run_over_two_managers", "name_known_to_one_manager_only"]
+          "scenario_added_later", "session_with_foreign_operations", "session_over_two_managers", "scenario_registered_again", "run_over_two_managers", "name_known_to_one_manager_only"]
 EXHAUSTIVE = {"quick": False, "thorough": False}
 
 VALS = [0.0, 0.5, 1.5, 2.0, 3.0, 7.0]
@@ -207,10 +207,11 @@ def generate(spec):
     for _ in range(rng.randint(5, 15)):
         r = rng.random()
         if in_session is not None and r < 0.55:
-            mgr, scs = in_session
+            mgrs_, scs = in_session
+            mgr = rng.choice(mgrs_)
             rr = rng.random()
             if rr < 0.45:
-                sc = rng.choice(scs)
+                sc = rng.choice([s_ for s_ in scs if (mgr, s_) in keys] or scs)
                 st = gen_settings(rng, tpl_of[mgr], base_of[mgr], allow_runspecs=False)
                 ops.append({"op": "run_step", "settings": {mgr: {sc: st}}})
             elif rr < 0.8:
@@ -245,11 +246,23 @@ def generate(spec):
             scs = [s for (m, s) in keys if m == mgr]
             sel = rng.sample(scs, rng.randint(1, min(2, len(scs))))
             settings = {}
+            smgrs = [mgr]
+            twins = [m["name"] for m in cfg["managers"] if m["name"] != mgr and m["base"] == [x for x in cfg["managers"] if x["name"] == mgr][0]["base"]]
+            if twins and rng.random() < 0.35:
+                # one session over two managers of the same model with same-named scenarios: settings are per manager
+                tw = rng.choice(twins)
+                both = [s_ for s_ in scs if (tw, s_) in keys]
+                if both:
+                    sel = rng.sample(both, rng.randint(1, min(2, len(both))))
+                    smgrs = [mgr, tw]
+                    if rng.random() < 0.5:
+                        smgrs.reverse()
             if rng.random() < 0.7:
-                settings = {mgr: {rng.choice(sel): gen_settings(rng, tpl_of[mgr], base_of[mgr])}}
-            ops.append({"op": "begin_session", "managers": [mgr], "scenarios": sel, "settings": settings,
+                sm_ = rng.choice(smgrs)
+                settings = {sm_: {rng.choice([s_ for s_ in sel if (sm_, s_) in keys] or sel): gen_settings(rng, tpl_of[sm_], base_of[sm_])}}
+            ops.append({"op": "begin_session", "managers": smgrs, "scenarios": sel, "settings": settings,
                         "equations": rng.sample(T.ELEMENTS[tpl_of[mgr]], rng.randint(1, 3))})
-            in_session = (mgr, sel)
+            in_session = (smgrs, sel)
         elif r < 0.70:
             mgr, sc = rng.choice(keys)
             ops.append({"op": "rest_run", "manager": mgr, "scenario": sc,
@@ -262,7 +275,7 @@ def generate(spec):
             mgr = rng.choice([m["name"] for m in cfg["managers"]])
             name = "late%d" % added
             added += 1
-            again = [s_ for (m_, s_) in keys if m_ == mgr and not (in_session and in_session[0] == mgr and s_ in in_session[1])]
+            again = [s_ for (m_, s_) in keys if m_ == mgr and not (in_session and mgr in in_session[0] and s_ in in_session[1])]
             if again and rng.random() < 0.45:
                 # the same name registered again with another definition: what the new definition does not mention is gone
                 name = rng.choice(again)
@@ -293,6 +306,8 @@ def apply_op(w, op, res):
                         equations=list(op["equations"]))
         w.apply_settings_shadow(op["settings"])
         touched = {(m, s) for m in op["managers"] for s in op["scenarios"]}
+        if len(op["managers"]) > 1:
+            res.probe("session_over_two_managers")
         for m, scs in op["settings"].items():
             for s, st in scs.items():
                 if "points" in st:
@@ -300,6 +315,7 @@ def apply_op(w, op, res):
                 if "runspecs" in st:
                     res.probe("runspec_setting")
         w.session = touched
+        w.session_grid = {k: (w.shadow[k]["start"], w.shadow[k]["stop"], w.shadow[k]["dt"]) for k in touched if k in w.shadow}
     elif kind == "run_step":
         if op["settings"]:
             res.probe("step_level_setting")
@@ -331,9 +347,26 @@ def apply_op(w, op, res):
     return touched
 
 
+def _normalise(case):
+    """A session that lists a manager owning none of its scenario names makes bptk step ALL scenarios of that manager
+    (an empty name list means "all" in ScenarioManagerFactory.get_scenarios).  That quirk is outside the property; the
+    generator never produces it, the shrinker could (by dropping the operation that added a name): such a manager is
+    taken off the list, here and therefore identically in every replay."""
+    have = {m["name"]: set(m["scenarios"]) for m in case["config"]["managers"]}
+    out = copy.deepcopy(case)
+    for op in out["ops"]:
+        if op["op"] == "add_scenario":
+            have.setdefault(op["manager"], set()).add(op["name"])
+        elif op["op"] in ("begin_session", "run") and len(op.get("managers", [])) > 1 and op["op"] == "begin_session":
+            keep = [m for m in op["managers"] if have.get(m, set()) & set(op["scenarios"])]
+            op["managers"] = keep or op["managers"][:1]
+    return out
+
+
 def execute(case, prop="C06"):
     if case.get("kind") == "hybrid":
         return execute_hybrid(case, prop)
+    case = _normalise(case)
     log = EventLog()
     res = RunResult()
     with patches.installed(threads="serial"):
@@ -347,6 +380,7 @@ def execute(case, prop="C06"):
 def run_history(w, case, res, log, prop, twin_factory=None):
     if True:
         w.session = set()
+        w.session_grid = {}
         w.step_outputs = []
         shared = len(set(w.mgr_base.values())) < len(w.mgr_base)
         if shared:
@@ -405,8 +439,17 @@ def run_history(w, case, res, log, prop, twin_factory=None):
                         if not isinstance(node, dict):
                             continue
                         fresh = w.fresh_for(key)
+                        # the run specs the scenario had when the session was begun (later changes do not move a running session)
+                        g0 = w.session_grid.get(key, (sh["start"], sh["stop"], sh["dt"]))
+                        own_grid = set(T.label(x) for x in T.grid(*g0))
                         for el, tv in node.items():
                             for t, v in tv.items():
+                                if float(t) not in own_grid:
+                                    # a session steps on the grid of its scenarios (with the run specs its settings gave them)
+                                    res.violate(prop + ".scenario-differs-from-fresh-model-grid-differs",
+                                                {"scenario": list(key), "element": el, "t": float(t), "via": "session run_step", "op_index": n,
+                                                 "runspec_at_begin": list(g0)})
+                                    break
                                 try:
                                     fv = fresh.evaluate_equation(el, float(t)) if hasattr(fresh, "evaluate_equation") else fresh.equation(el, float(t))
                                 except Exception:
